@@ -7,6 +7,12 @@ NOTE = ("Trusted base: rustc's MIR/name resolution (nightly, mir-opt-level=0) is
         "rules/panic_triage.py are argued by reading. The check decides necessary structural conditions only; the "
         "value-level remainder of the property is listed under 'not decided' in the evidence file.")
 CLAIMED = {
+ "C09": dict(
+   text="Every numeric `as` cast on literal paths is classified by range propagation over the MIR expression (x / C, x % C, bounded fields): lossy ones are findings. Every FixedPoint a grammar action receives must have both parts read. The converter's accepted character set is cross-checked against the lexer regex alphabet. The lexer and DSL address regexes are parsed and compared (language, case, unbounded ASCII digit components, optional groups indexed). Fallible conversions must sit in `{? }` actions without unwrap/expect. Literal-path subset of the panic inventory. The mathematical value of accepted literals is not decided.",
+   design="3 C09", technique="static analysis: MIR range propagation for casts, field-read completeness, regex AST comparison, sibling cross-check"),
+ "C15": dict(
+   text="Legend constants vs *_INDEX constants by name and the advertised legend; the token-kind match is exhaustive without wildcard and each arm agrees with the class derived independently from the lexer's #[token]/#[regex] attributes; delta_line/delta_start of every SemanticToken must data-depend on a subtraction (relative encoding); Ok token list only when the tokenizer's diagnostics are empty and Err answered with null. Monotonicity/non-overlap of decoded ranges and UTF-16 lengths are not decided.",
+   design="3 C15", technique="static analysis: constant-table agreement, switch-arm extraction from MIR vs attribute-derived oracle, backward data-flow slice, CFG dominance"),
  "C11": dict(
    text="Path-sensitive exploration of handle_notification's MIR: exactly one publishDiagnostics on the didOpen/didChange arms, after change_text_document then semantic, built from the same notification's uri and Some(version); none elsewhere. Data-flow slice of contentChanges (last change must win). Who-writes analysis for Source fields and FileBackedProject.sources (cache coherence by construction) and callee identity of the analysis entry shared with `check`. Decides these structural clauses for all histories; equality of published content with a fresh server is not decided.",
    design="3 C11", technique="static analysis: path-state exploration over MIR CFG, field who-writes, data-flow slicing"),
